@@ -6,7 +6,13 @@ stdout: per case {"hint": seconds the classifier produced (None / number / "nan"
 The operation fails once with a 429 carrying the hint and then succeeds; no time passes except in the sleeper."""
 import json
 import random
+import os
 import sys
+import time as _time
+
+# a process east of Greenwich: a Retry-After date without a zone means GMT, whatever the local zone is
+os.environ["TZ"] = "JST-9"
+_time.tzset()
 import traceback
 from fractions import Fraction
 
